@@ -126,8 +126,9 @@ def main(tier, replay):
             raise Infra("shardprobe failed: " + r.stderr[-2000:])
         probes = vlib.read_ndjson(sp)
         for d in probes:
-            if d["err"] or not (d["server"] == d["gateway"] == d["again"] == d["shardidfor"] and 0 <= d["server"] < d["n"]):
-                v.violation("shard-%d-%s" % (d["n"], d["name"][:12].replace("/", "_")), {"probe": d, "what": "gateway and server disagree on the shard (or out of range / unstable)"})
+            ok = d["server"] == d["shardidfor"] and 0 <= d["server"] < d["n"] and d["gateway"] == d["again"] == d["want"] and (bool(d["err"]) == (d["want"] < 0))
+            if not ok:
+                v.violation("shard-%d-%s" % (d["n"], d["name"][:12].replace("/", "_")), {"probe": d, "what": "gateway and server disagree on the shard (or out of range / unstable), or the gateway addresses a server that was not reported as leader of the name's shard / reports no leader for a shard that has one"})
         # (b) leadership histories
         states = trans = 0
         if replay:
